@@ -152,7 +152,8 @@ namespace sim
         case 0:  o.f.mask = 1u << EV_ALLOC; break;
         case 1:  o.f.mask = MASK_CTORS; break;
         case 2:  o.f.mask = (1u << EV_ASSIGN_COPY) | (1u << EV_ASSIGN_MOVE) | (1u << EV_SWAP); break;
-        case 3:  o.f.mask = (1u << EV_ITER_DEREF) | (1u << EV_ITER_INC) | (1u << EV_GEN_CALL); break;
+        case 3:  o.f.mask = (1u << EV_ITER_DEREF) | (1u << EV_ITER_INC) | (1u << EV_GEN_CALL)
+                            | (1u << EV_COMPARE) | (1u << EV_PRED); break;
         default: o.f.mask = MASK_ALL; break;
       }
       if (! stream_faults)
